@@ -222,6 +222,16 @@ def events():
         for phase, body in (("pake", hexjson({"pake_v1": "00"})), ("version", "00"), ("0", "00")):
             ev(f"msg.message(side={side!r}, phase={phase!r})", om,
                (lambda s, p, b: lambda w: w.msg(type="message", side=s, phase=p, body=b, id="m"))(side, phase, body))
+    import binascii as _b
+    bad_bodies = [("pake", "not-hex", "zz"),
+                  ("pake", "hex-of-non-json", _b.hexlify(b"not json").decode()),
+                  ("pake", "pake_v1-not-hex", hexjson({"pake_v1": "zz"})),
+                  ("pake", "no-pake_v1", hexjson({"other": 1}))]
+    for phase, label, body in bad_bodies:
+        ev(f"msg.message(side='side2', phase={phase!r}, body=<{label}>)", om,
+           (lambda p, b: lambda w: w.msg(type="message", side="side2", phase=p, body=b, id="m"))(phase, body))
+    ev("msg.message(side='sid\u00e9', phase='version')", om,
+       lambda w: w.msg(type="message", side="sid\u00e9", phase="version", body="00", id="m"))
     ev("msg.error('crowded')", lambda w: cw(w) and w.bound, lambda w: w.msg(type="error", error="crowded", orig={}))
     ev("msg.ack", cw, lambda w: w.msg(type="ack", id="a"))
     return E
@@ -242,7 +252,7 @@ def run_history(names, defer_stop=False):
         if ev.get("isError"):
             f = ev.get("failure")
             if f is not None:
-                fails.append(("logged", f.type.__name__, str(f.value)[:300], tb_tail(f)))
+                fails.append(("logged", f.type.__name__, str(f.value)[:300], tb_tail(f), [c.__name__ for c in f.type.__mro__]))
     txlog.addObserver(observer)
     w = None
     try:
@@ -254,7 +264,8 @@ def run_history(names, defer_stop=False):
             try:
                 do(w)
             except Exception as e:      # noqa
-                fails.append(("raised", type(e).__name__, str(e)[:300], "".join(traceback.format_tb(e.__traceback__)[-3:])))
+                fails.append(("raised", type(e).__name__, str(e)[:300], "".join(traceback.format_tb(e.__traceback__)[-3:]),
+                              [c.__name__ for c in type(e).__mro__]))
             w.clock.advance(0)
             w.absorb()
         return w, fails, True
@@ -280,7 +291,8 @@ API_ERRORS = {"api.set_code": ("KeyFormatError", "OnlyOneCodeError"), "api.alloc
 def matches(target, w, fails, last_event):
     """does the observed behaviour show the failure the obligation forbids?"""
     kind = target.get("kind")
-    for how, cls, msg, tb in fails:
+    import re as _re
+    for how, cls, msg, tb, mro in fails:
         allowed = ()
         for pre, al in API_ERRORS.items():
             if last_event.startswith(pre):
@@ -288,12 +300,14 @@ def matches(target, w, fails, last_event):
         if how == "raised" and cls in allowed:
             continue
         if kind == "nodom" and cls == "NoTransition":
-            if target["input"] in msg and target["state"] in msg:
+            if _re.search(r"\.%s at " % _re.escape(target["input"]), msg) and \
+                    _re.search(r"\.%s at " % _re.escape(target["state"]), msg) and \
+                    (not target.get("machine") or (target["machine"] + ".") in msg):
                 return f"{cls}: {msg}"
         if kind == "assert" and cls == "AssertionError":
             if target.get("function", "").split(".")[-1] in tb:
                 return f"AssertionError in {target.get('function')}\n{tb}"
-        if kind == "exc" and cls == target.get("exc"):
+        if kind == "exc" and (cls == target.get("exc") or target.get("exc") in mro):
             return f"{cls}: {msg}\n{tb}"
         if kind == "any-internal":
             return f"{cls}: {msg}\n{tb}"
